@@ -2,8 +2,8 @@
    Only ExtrOcamlBasic's directives are used; numbers stay as extracted inductives. *)
 Require Extraction.
 Require Import ExtrOcamlBasic.
-From RxModel Require Import Derived Ops2 Subject GroupBy Flatten.
-From RxSpec Require Import DerivedSpec Ops2Spec SubjectSpec BehaviorSpec GroupBySpec FlattenSpec.
+From RxModel Require Import Derived Ops2 Subject GroupBy Flatten Timed.
+From RxSpec Require Import DerivedSpec Ops2Spec SubjectSpec BehaviorSpec GroupBySpec FlattenSpec TimedSpec.
 Extraction Language OCaml.
 Extraction "model.ml"
   apply_fn apply_fn2 pred_of opt_of
@@ -12,4 +12,5 @@ Extraction "model.ml"
   run_op2 spec_op2 first_side
   srun subj0 arun asub0 size_ok brun bsubj0 abrun sops_of
   run_group_by first_keys group_trace announced flattened outer_term announced_first items_of term_of term_evs val_eqb
-  run_flatten downstream peak_ok subs_increasing completion_ok.
+  run_flatten downstream peak_ok subs_increasing completion_ok
+  run_timed raw_ok.
